@@ -230,7 +230,8 @@ CHECKS["C05"] = {
             "Part sched (Engine B): on a stream listener the relay loop (a ChannelData frame and a Data indication) and the connection's read loop (a Refresh response) write to one client connection in every interleaving up to the preemption bound: the client reads whole frames. "
             "A class is (transport, MTU, content, path, length class) -> relayed | dropped.",
     "parts": [A("relay", "./checks/c05", "TestC05", budget={"quick": 60, "thorough": 1500}),
-              A("sched", "./checks/bsem", "TestC05Sched", overlay=True, gomaxprocs=1, budget={"quick": 60, "thorough": 600})],
+              A("sched", "./checks/bsem", "TestC05Sched", overlay=True, gomaxprocs=1, budget={"quick": 60, "thorough": 600}),
+              A("stalled", "./checks/c05", "TestC05Stalled", nshards=1, budget={"quick": 60, "thorough": 60})],
 }
 
 CHECKS["C09"] = {
@@ -293,7 +294,8 @@ CHECKS["C16"] = {
               A("client-e2e", "./checks/c16", "TestC16ClientE2E", budget={"quick": 90, "thorough": 900}),
               A("udp-control", "./checks/c16", "TestC16UDPControl", budget={"quick": 90, "thorough": 900}),
               A("ipv6", "./checks/c16", "TestC16V6", budget={"quick": 60, "thorough": 600}),
-              A("genconn", "./checks/c16", "TestC16GenConn", nshards=1, budget={"quick": 60, "thorough": 60})],
+              A("genconn", "./checks/c16", "TestC16GenConn", nshards=1, budget={"quick": 60, "thorough": 60}),
+              A("idclash", "./checks/c16", "TestC16IDClash", nshards=1, budget={"quick": 30, "thorough": 30})],
 }
 
 CHECKS["C12"] = {
@@ -380,4 +382,17 @@ _ADD = {
     "C20": " Listening addresses are given as IP literals and as host names (simnet resolver: relay.test, relay6.test).",
 }
 for _k, _v in _ADD.items():
+    CHECKS[_k]["rule"] += _v
+
+_ADD2 = {
+    "C05": " Part stalled: a stream client stops reading in the middle of a relayed message (its window takes 0..500 more bytes), stays silent for 10 ms .. 3 min while the peer goes on sending, then reads on "
+           "(simnet models the partial write: a stream write that meets its deadline returns the bytes already taken): the client's stream still parses into frames each of which is a payload the peer sent, in order.",
+    "C12": " In part concurrent also: the first transmission of the second transaction fails with a write error while the first transaction is pending - the first one goes on as if alone.",
+    "C14": " In the 140-peer pattern the application speaks once more to the first 40 peers 25 minutes later (their bindings fell due in the same refresh rounds).",
+    "C15": " Also (Engine B): Server.Close of a UDP listener while an Allocate is inside a slow relay address generator; Refresh 0 + Allocate on the 5-tuple followed by Server.Close (count 1 after the second Allocate, nothing left at the end).",
+    "C16": " Part idclash: the process's random source is scripted to repeat itself, so that the id drawn for a second peer connection equals one that is still pending (same allocation, another user's, another allocation of the "
+           "same user): the second Connect may fail but never succeeds with the taken id. Engine B also: a Connect whose dial takes 10 s, ConnectionBind 25 s after its success response binds.",
+    "C19": " Engine B also: LIFETIME 1 with a relay address generator that takes 500 ms / 2 s: the allocation exists 700 ms after the success response and is gone 3 s after it.",
+}
+for _k, _v in _ADD2.items():
     CHECKS[_k]["rule"] += _v
